@@ -52,6 +52,7 @@ type Program struct {
 	Force    bool             `json:"force,omitempty"`
 	ForceAll bool             `json:"forceall,omitempty"`
 	Yes      bool             `json:"yes,omitempty"`
+	AcqGate  bool             `json:"acq,omitempty"` // the harness also decides the order in which tasks take their slot
 	NS       []string         `json:"ns,omitempty"` // namespaces under which inc.yml is included; tasks named "<ns>:x" live there
 	Feat     []string         `json:"feat,omitempty"`
 }
